@@ -36,13 +36,15 @@ Qed.
 
 Lemma p_single c : (length (p_bases c) <= 1)%nat.
 Proof.
-  unfold p_bases. destruct (tbl_get g_classes c) as [[n [b r]]|] eqn:G; [|cbn; lia].
+  unfold p_bases. destruct (g_chain_ends_at_any && (c =? g_cls_Any)); [cbn; lia|]. unfold tbl_bases.
+  destruct (tbl_get g_classes c) as [[n [b r]]|] eqn:G; [|cbn; lia].
   pose proof (forest_entry c n b r G) as F. destruct b as [|p [|p' l]]; cbn [length]; try lia; contradiction F.
 Qed.
 
 Lemma p_rank_ok c p : In p (p_bases c) -> (p_rank p < p_rank c)%nat.
 Proof.
-  unfold p_bases, p_rank at 2. destruct (tbl_get g_classes c) as [[n [b r]]|] eqn:G; [|intros []].
+  unfold p_bases. destruct (g_chain_ends_at_any && (c =? g_cls_Any)); [intros []|]. unfold tbl_bases, p_rank at 2.
+  destruct (tbl_get g_classes c) as [[n [b r]]|] eqn:G; [|intros []].
   pose proof (forest_entry c n b r G) as F. destruct b as [|q [|q' l]]; [intros [] | | contradiction F].
   intros [<-|[]]. apply andb_prop in F. destruct F as [F _]. apply andb_prop in F. destruct F as [_ F].
   apply Nat.ltb_lt in F. exact F.
